@@ -2,10 +2,13 @@
    c17parse  "<hex of manifest bytes>" -> the ParseActions callbacks of one Parser::parse(), one item per callback
              (same text as harness/vc17load.cpp mode `c17parse`)
    c17full   "wd:<hex> file:<path-hex>:<content-hex> ..." -> bytes -> lexer model -> parser model -> loader model,
-             printed like mode `c17load` (compared with the real ManifestLoader) -/
+             printed like mode `c17load` (compared with the real ManifestLoader)
+   c17render a declaration stream as printed by harness mode `c17decls` ("wd:<hex> file:<hex> <items...> file:...") ->
+             "ok f:<path-hex>:<hex of NinjaPrint.render decls | U if not Printable> ..." (the printer of the round-trip theorem) -/
 import LLBuild.Drv.Common
 import LLBuild.Drv.C17Load
 import LLBuild.Model.NinjaParser
+import LLBuild.Model.NinjaPrint
 
 namespace LLBuild.Drv.C17Parse
 open LLBuild LLBuild.Drv LLBuild.NinjaLexer LLBuild.NinjaParser
@@ -70,7 +73,14 @@ def stepFull (line : String) : String :=
     | .fuel => "hang model-fuel"
   | _ => "bad-op"
 
+def stepRender (line : String) : String :=
+  match C17Load.parseLine line with
+  | some (_, files) =>
+    "ok " ++ " ".intercalate (files.map fun (p, ds) =>
+      "f:" ++ Hex.encode p ++ ":" ++ (if NinjaPrint.Printable ds then Hex.encode (NinjaPrint.render ds) else "U"))
+  | none => "bad-op"
+
 def modes : List (String × Mode) :=
-  [("c17parse", lineLoop stepParse), ("c17full", lineLoop stepFull)]
+  [("c17parse", lineLoop stepParse), ("c17full", lineLoop stepFull), ("c17render", lineLoop stepRender)]
 
 end LLBuild.Drv.C17Parse
